@@ -12,6 +12,17 @@ CLAIMED = {
         ref="3.4",
         note="Trusted: the backtracking reference (dsim/props/graphref.py). Stub: GC trigger only. hcount direction accepted both "
              "ways where the statement leaves it open. Real: graph_matcher.py, subgraph_matcher.py, graph_morphism.py, networkx VF2."),
+    "C13": dict(
+        text="Clustering is driven as a small service with durable state (the template library) and unreliable delivery: seeded "
+             "histories of deliveries with varying batch boundaries and orders, single-item classification, redelivery of "
+             "earlier batches and restarts in which only the pickled template library survives. After every operation the "
+             "classes of everything delivered so far are compared with VF2 ground truth (same class iff isomorphic), "
+             "redelivered items must keep their class, templates must stay pairwise non-isomorphic, and one-shot clustering "
+             "in a random order must give the same partition. Seeded sampling; evidence, not proof.",
+        ref="3.3",
+        note="Trusted: networkx VF2 with independent categorical matchers as ground truth; the harness-computed invariant "
+             "pre-grouping attribute. Stub: random facade for Utils.utils, pickle round trip as restart. Real: batch_cluster.py, "
+             "graph_cluster.py, graph_morphism.graph_isomorphism."),
     "C14": dict(
         text="The real BatchReactor / BatchCluster / validators / SynCRN run in one process under a simulated environment: "
              "id() is a simulated address space that re-issues an address only after its owner is provably dead, cyclic GC runs "
